@@ -62,7 +62,7 @@ MANIFEST = dict(
          "dictionary has a phrase). NOT YET THEOREMS: that the highlighted range always consists of syllables (RangeIs is a "
          "premise) and begin<end<=len after Down/Space cycling and jumps (only after init), that the opened range is the "
          "longest one with a phrase (oracle check D only), termination of the selector loops. F04, F08, the missing page reset of j/k/jump "
-         "and the symbol lists' answer to an out-of-range choice were repaired by fix: commits; F32 is a known finding.",
+         "and the symbol lists' answer to an out-of-range choice were repaired by fix: commits; F32 (stale page after a configuration/dictionary call while a list is open) and F40 (chewing_cand_list_first on the simple engine's single-word list swallows a following non-syllable symbol: range_is_syllables_refuted, found by the thorough tier) are known findings with exact oracle classes.",
     note="Trusted: Lean kernel (standard axioms), read-only snapshot hooks, harness + compiled model driver. The C functions "
          "chewing_cand_* are modelled by reading (thin wrappers over the Rust getters the correspondence drives).",
     technique="Lean 4 proof (list/division arithmetic for all lists and page sizes; invariant by case analysis over every arm "
